@@ -315,6 +315,18 @@ def _run(case, out, rig, axolotl):
                 out.fail("internal", "internal:send_raises:%s" % type(e).__name__, {"step": step, "error": repr(e)[:300]})
                 return out
             scan_internal()
+        elif kind == "count":
+            # the server asks for fresh one-time prekeys: the control layer issues a key upload (library-internal request)
+            if not axolotl:
+                continue
+            out.label("internal:key_upload")
+            try:
+                rig.inject(T.to_node(("notification", {"from": "s.whatsapp.net", "id": "cnt-%d" % step, "type": "encrypt", "t": "1500000000"},
+                                      [("count", {"value": "3"}, None)])))
+            except Exception as e:
+                out.fail("internal", "internal:key_count_notification_raises:%s" % type(e).__name__, {"step": step, "error": repr(e)[:300]})
+                return out
+            scan_internal()
         elif kind in ("ireply", "ireplay"):
             scan_internal()
             if not internal:
@@ -331,8 +343,10 @@ def _run(case, out, rig, axolotl):
                 try:
                     rig.inject(T.to_node(reply))
                 except Exception as e:
-                    out.fail("internal", "internal:reply_%s_raises:%s" % (mode, type(e).__name__), {"step": step, "error": repr(e)[:300]})
-                    return out
+                    # a refused key upload makes the control layer raise by design
+                    if not (mode == "error" and "Sent keys were not accepted" in str(e)):
+                        out.fail("internal", "internal:reply_%s_raises:%s" % (mode, type(e).__name__), {"step": step, "error": repr(e)[:300]})
+                        return out
             elif req["last_reply"] is not None:
                 special = True
                 out.label("internal_replay")
@@ -435,7 +449,7 @@ def script_strategy():
             elif choice == 11:
                 ops.append(["server_get", draw(st.one_of(st.none(), sel))])
             elif choice == 12:
-                ops.append(["msg", draw(sel)])
+                ops.append(draw(st.sampled_from([["msg", 0], ["msg", 1], ["msg", 3], ["count"]])))
             elif choice == 13:
                 ops.append(["ireply", draw(sel), draw(st.sampled_from(["result", "result", "result", "error"]))])
             else:
@@ -461,7 +475,7 @@ def single_kind_strategy(kind):
 
 def internal_strategy():
     sel = st.integers(0, 7)
-    op = st.one_of(st.tuples(st.just("msg"), sel).map(list), st.tuples(st.just("msg"), sel).map(list),
+    op = st.one_of(st.tuples(st.just("msg"), sel).map(list), st.tuples(st.just("msg"), sel).map(list), st.just(["count"]),
                    st.tuples(st.just("ireply"), sel, st.sampled_from(["result", "result", "result", "error"])).map(list),
                    st.tuples(st.just("ireplay"), sel).map(list))
     return st.lists(op, min_size=2, max_size=10).map(lambda ops: {"sub": "history", "axolotl": True, "ops": ops})
